@@ -21,7 +21,7 @@ fn tier_pick<T>(tier: &str, q: T, t: T) -> T {
 
 fn run_c19(tier: &str) -> i32 {
     let mut rep = Report::new("C19", tier);
-    rep.rule = "per runtime (tokio, smol): DFS over message sequences (1..3 messages, each size from the alphabet, some far larger than the 4.6 KB socket buffers) x driver schedules: the first N steps are choice points among {default = alternate sender/receiver, poll the sender, poll the receiver, drop the pending send future and go on} with a deviation budget, then the default schedule runs to completion; one- and two-directional traffic; plus listener cases {bound, inherited descriptor} x 1..8 clients; plus listeners {bound, inherited descriptor left in blocking mode, inherited descriptor in non-blocking mode} x 1..3 clients x for each client whether accept is polled before it connects (must come back pending, then complete) or after, with traffic both ways on every accepted connection (a watchdog turns a listener that blocks its thread into a verdict); plus, with loom, every interleaving of 3..4 threads that create connections (identifiers pairwise distinct). Every schedule is a real execution over a real socketpair on one thread. Distinct = distinct (received sequence, abandoned sends)".into();
+    rep.rule = "per runtime (tokio, smol): DFS over message sequences (1..3 messages, each size from the alphabet, some far larger than the 4.6 KB socket buffers) x driver schedules: the first N steps are choice points among {default = alternate sender/receiver, poll the sender, poll the receiver, drop the pending send future and go on} with a deviation budget, then the default schedule runs to completion; one- and two-directional traffic; plus 2..3 messages (one of 70..150 KB) sent with send_call or each as a chain of its own, one send abandoned at its 1st / 2nd / 4th pending poll, the rest and a final flush following, raw bytes compared at a std reader; plus listener cases {bound, inherited descriptor} x 1..8 clients; plus listeners {bound, inherited descriptor left in blocking mode, inherited descriptor in non-blocking mode} x 1..3 clients x for each client whether accept is polled before it connects (must come back pending, then complete) or after, with traffic both ways on every accepted connection (a watchdog turns a listener that blocks its thread into a verdict); plus, with loom, every interleaving of 3..4 threads that create connections (identifiers pairwise distinct). Every schedule is a real execution over a real socketpair on one thread. Distinct = distinct (received sequence, abandoned sends)".into();
     rep.assumptions = vec![
         "the kernel socket is a FIFO whose answers are a function of the operation sequence; how many bytes each write accepts is observed, not enumerated".into(),
         "connection identifiers are compared for distinctness within one process, sequentially (the counter is a single atomic fetch_add)".into(),
@@ -88,6 +88,10 @@ fn run_c19(tier: &str) -> i32 {
             }
         }));
     }
+    // sends (plain and whole chains) abandoned while pending, more sent afterwards: the raw bytes a std
+    // reader gets at the other end
+    rep.require_goal("chain-send-abandoned-then-another-chain");
+    rep.add(abandoned_sends_sweep(tier, "sockets:"));
     // connection identifiers under threads: zlink-core's id counter is a loom atomic in the `loom`
     // build flavor; the child explores every interleaving of 3..4 threads creating connections
     {
@@ -220,7 +224,7 @@ fn c03_child(tier: &str) -> i32 {
         if sizes.iter().any(|z| *z > 100_000) {
             s.goal("message-of-more-than-100KB-over-a-real-socket");
         }
-        match c19::raw_wire_case(*rt, sizes, *drain, *small, None) {
+        match c19::raw_wire_case(*rt, sizes, *drain, *small, None, false) {
             Ok(n) => {
                 s.steps(sizes.len() as u64);
                 s.pass(xplore::H64::new().u(i).u(n).get())
@@ -237,22 +241,29 @@ fn c03_child(tier: &str) -> i32 {
 /// messages sent afterwards; the raw bytes at the other end of the real socket pair must be every
 /// message once, in order, each followed by one NUL.  Prints one JSON line.
 fn c02_child(tier: &str) -> i32 {
+    let st = abandoned_sends_sweep(tier, "outframe:");
+    eprintln!("[C02 child] {} cases, {} violation classes, {:.1}s", st.evals, st.violations.len(), st.wall);
+    println!("{}", xplore::report::child_json(&[st], "C19"));
+    0
+}
+
+fn abandoned_sends_sweep(tier: &str, class_prefix: &str) -> xplore::Stats {
     let cfg = Config { max_wall: std::time::Duration::from_secs(tier_pick(tier, 60, 900)), threads: 8, ..Default::default() };
     let cases = c19::raw_wire_abandon_cases(tier == "thorough");
-    let st = sweep("raw-wire-bytes/abandoned-sends/tokio+smol", cases.len() as u64, &cfg, |i, s| {
-        let (rt, sizes, drain, small, ab) = &cases[i as usize];
+    sweep("raw-wire-bytes/abandoned-sends/tokio+smol", cases.len() as u64, &cfg, |i, s| {
+        let (rt, sizes, drain, small, ab, chains) = &cases[i as usize];
         s.goal("send-abandoned-then-more-messages-over-a-real-socket");
-        match c19::raw_wire_case(*rt, sizes, *drain, *small, Some(*ab)) {
+        if *chains {
+            s.goal("chain-send-abandoned-then-another-chain");
+        }
+        match c19::raw_wire_case(*rt, sizes, *drain, *small, Some(*ab), *chains) {
             Ok(n) => {
                 s.steps(sizes.len() as u64);
                 s.pass(xplore::H64::new().u(i).u(n).get())
             }
-            Err((c, d)) => s.fail(c.replace("jsoneq:", "outframe:"), format!("{rt:?}: {d}"), json!({"raw_wire_case": [format!("{rt:?}"), sizes, if *drain == usize::MAX { json!("all") } else { json!(drain) }, small, [ab.0, ab.1]]})),
+            Err((c, d)) => s.fail(c.replace("jsoneq:", class_prefix), format!("{rt:?}: {d}"), json!({"raw_wire_case": [format!("{rt:?}"), sizes, if *drain == usize::MAX { json!("all") } else { json!(drain) }, small, [ab.0, ab.1], chains]})),
         }
-    });
-    eprintln!("[C02 child] {} cases, {} violation classes, {:.1}s", st.evals, st.violations.len(), st.wall);
-    println!("{}", xplore::report::child_json(&[st], "C19"));
-    0
+    })
 }
 
 fn run_c20(tier: &str) -> i32 {
@@ -317,7 +328,7 @@ fn replay(path: &str) -> i32 {
                 let sizes: Vec<usize> = c[1].as_array().map(|a| a.iter().map(|x| x.as_u64().unwrap_or(300) as usize).collect()).unwrap_or_default();
                 let drain = c[2].as_u64().map(|d| d as usize).unwrap_or(usize::MAX);
                 let abandon = c.get(4).and_then(|a| a.as_array()).map(|a| (a[0].as_u64().unwrap_or(0) as usize, a[1].as_u64().unwrap_or(1) as usize));
-                let r = c19::raw_wire_case(rt, &sizes, drain, c[3].as_bool().unwrap_or(true), abandon);
+                let r = c19::raw_wire_case(rt, &sizes, drain, c[3].as_bool().unwrap_or(true), abandon, c.get(5).and_then(|x| x.as_bool()).unwrap_or(false));
                 (vec![format!("raw wire case {c}")], Ok(match r {
                     Ok(_) => Verdict::Pass(0),
                     Err((c, d)) => Verdict::fail(c, d),
